@@ -25,10 +25,12 @@ EXTENDS Naturals, FiniteSets, TLC
 CONSTANTS Conns,        \* connection names
           MaxChanges,   \* budget of host changes
           MaxConc,      \* maxPushConcurrency (32 in the code)
-          Kinds,        \* kinds of change: subset of {"proto","addr","rec"}
+          Kinds,        \* kinds of change: subset of {"fresh", "revert"}
           FailLate      \* may pushes fail after the last change? (FALSE for liveness)
 
-VARIABLES hc,     \* host content [p, a, r]: extra protocol?, extra address?, record version
+VARIABLES hc,     \* host content, as a version id: 0 initially, a "fresh" change makes content nobody has seen
+                  \* (which of protocols / addresses / signed record differs is the harness's choice), a
+                  \* "revert" change puts back what the snapshot holds (the next updateSnapshot is a no-op)
           nch,    \* changes made
           evq,    \* events emitted and not yet handled by the loop
           snap,   \* [seq, c]  ids.currentSnapshot
@@ -52,8 +54,8 @@ View == <<hc, nch, evq, snap, trig, run, todo, cs, ps, last, g, gs, hi, pushed, 
 
 Ent(c) == cs[c] \in {"up", "closed"}          \* c has an entry in ids.conns
 Busy == {c \in Conns : g[c] # "none"}
-C0 == [p |-> 0, a |-> 0, r |-> 0]
-NoC == [p |-> 9, a |-> 9, r |-> 9]        \* "nothing delivered yet"
+C0 == 0
+NoC == 99                                 \* "nothing delivered yet"
 
 Init ==
   /\ hc = C0 /\ nch = 0 /\ evq = 0
@@ -65,13 +67,12 @@ Init ==
   /\ resp = [c \in Conns |-> 0] /\ closed = FALSE
   /\ op = [name |-> "init"]
 
-Changed(k) == CASE k = "proto" -> [hc EXCEPT !.p = 1 - @]
-                [] k = "addr"  -> [hc EXCEPT !.a = 1 - @]
-                [] k = "rec"   -> [hc EXCEPT !.r = @ + 1]
+Changed(k) == IF k = "fresh" THEN nch + 1 ELSE snap.c
 
 \* the host changes and the event is emitted (the bus buffers 256 events: never full here)
 Change(k) ==
   /\ nch < MaxChanges
+  /\ (k = "revert" => hc # snap.c)
   /\ hc' = Changed(k) /\ nch' = nch + 1
   /\ evq' = IF closed THEN evq ELSE evq + 1     \* after Close nobody is subscribed
   /\ op' = [name |-> "change", kind |-> k, hc |-> Changed(k)]
@@ -106,7 +107,10 @@ Pick(c) ==
   /\ todo' = todo \ {c}
   /\ UNCHANGED <<hc, nch, evq, snap, trig, run, cs, ps, last, gs, hi, pushed, dc, resp, closed>>
 
-CanFail == FailLate \/ nch < MaxChanges
+\* FailLate = FALSE (liveness runs): a push may fail only while a fresh change is still to come; the code
+\* never retries a failed push before the next snapshot, so a failure after the last effective change
+\* leaves the connection behind for good (by design: "eligible for the next snapshot")
+CanFail == FailLate \/ (nch < MaxChanges /\ Kinds = {"fresh"})
 
 \* newStreamAndNegotiate: succeeds only on an open connection whose remote speaks push
 Open(c, ok) ==
@@ -136,8 +140,9 @@ Rec(c) ==
   /\ g[c] = "rec"
   /\ g' = [g EXCEPT ![c] = "none"]
   /\ last' = IF Ent(c) THEN [last EXCEPT ![c] = gs[c]] ELSE last
+  /\ gs' = [gs EXCEPT ![c] = 0]
   /\ op' = [name |-> "rec", c |-> c, seq |-> gs[c]]
-  /\ UNCHANGED <<hc, nch, evq, snap, trig, run, todo, cs, ps, gs, hi, pushed, dc, resp, closed>>
+  /\ UNCHANGED <<hc, nch, evq, snap, trig, run, todo, cs, ps, hi, pushed, dc, resp, closed>>
 
 REnd ==
   /\ run /\ todo = {} /\ Busy = {}
@@ -178,8 +183,11 @@ ConnClose(c) ==
 Disconnected(c) ==
   /\ cs[c] = "closed"
   /\ cs' = [cs EXCEPT ![c] = "gone"]
+  \* the entry is deleted; the ghosts of a connection that is gone no longer matter (kept canonical)
+  /\ ps' = [ps EXCEPT ![c] = "unknown"] /\ last' = [last EXCEPT ![c] = 0] /\ hi' = [hi EXCEPT ![c] = 0]
+  /\ pushed' = [pushed EXCEPT ![c] = {}] /\ dc' = [dc EXCEPT ![c] = NoC] /\ resp' = [resp EXCEPT ![c] = 0]
   /\ op' = [name |-> "disconnected", c |-> c]
-  /\ UNCHANGED <<hc, nch, evq, snap, trig, run, todo, ps, last, g, gs, hi, pushed, dc, resp, closed>>
+  /\ UNCHANGED <<hc, nch, evq, snap, trig, run, todo, g, gs, closed>>
 
 \* Close(): ctx cancelled; loop and pusher leave at their next select (modelled when the loop is idle);
 \* goroutines in flight finish on their own
@@ -208,7 +216,7 @@ Unstable == \/ (trig /\ ~run /\ ~closed)
 Prio == Unstable => op'.name \in {"rstart", "rend", "pick", "rec"}
 
 -----------------------------------------------------------------------------
-Content == [p : {0, 1}, a : {0, 1}, r : 0..MaxChanges] \cup {NoC}
+Content == 0..MaxChanges \cup {NoC}
 TypeOK ==
   /\ hc \in Content /\ nch \in 0..MaxChanges /\ evq \in 0..MaxChanges
   /\ snap.seq \in 1..(MaxChanges + 1) /\ snap.c \in Content
